@@ -161,6 +161,13 @@ func scenario(a, b *inst) (line string, slow bool) {
 	sel[a.op.Key] = a.v
 	t0 := time.Now()
 	c, br := connfake.Start(topic, connfake.VersionTable(sel))
+	if b.op.Name == "apiVersions" && a.op.Name != "apiVersions" {
+		// responses are scripted per api key: A's version negotiation would take the ApiVersions response meant for
+		// B.  Run A's operation once before (negotiation included), then script.
+		w, _ := build(rand.New(rand.NewSource(1)), a.op, a.v, nil, false)
+		br.Push(a.op.Key, connfake.Resp{Body: w.body, Cut: -1})
+		guarded(c, w)
+	}
 	br.Push(a.op.Key, connfake.Resp{Body: a.body, Cut: -1})
 	br.Push(b.op.Key, connfake.Resp{Body: b.body, Cut: -1})
 	resA, _ := guarded(c, a)
@@ -556,6 +563,27 @@ func main() {
 					emit(a, follower(a))
 				}
 			}
+		}
+	}
+	// ApiVersions as the follow-up operation (inside the main theorems since C11-D33): after every operation, with
+	// and without a broker-reported error in the first response
+	av := connfake.OpByName("apiVersions")
+	for _, op := range connfake.Ops {
+		if op.Name == "apiVersions" {
+			continue
+		}
+		for _, v := range op.Versions {
+			var errs []int16
+			if r.Intn(2) == 0 {
+				errs = []int16{codes[r.Intn(len(codes))]}
+			}
+			a, _ := build(r, op, v, errs, false)
+			var berrs []int16
+			if r.Intn(3) == 0 {
+				berrs = []int16{codes[r.Intn(len(codes))]}
+			}
+			b, _ := build(r, av, 0, berrs, false)
+			emit(a, b)
 		}
 	}
 	// a set truncated inside an honest frame (MaxBytes): the batch ends early (io.EOF after a prefix of the records, or
